@@ -66,6 +66,11 @@ pub fn placement(n: usize, mask: usize, base: u8) -> Vec<Option<u8>> {
     (0..n).map(|i| if mask >> i & 1 == 1 { Some(if i % 2 == 0 { base + i as u8 } else { base + 50 + i as u8 }) } else { None }).collect()
 }
 
+/// the same placement, but the data-holding nodes hold the empty datum (zero bytes, yet a datum)
+pub fn placement_empty(n: usize, mask: usize) -> Vec<Option<u8>> {
+    (0..n).map(|i| if mask >> i & 1 == 1 { Some(2) } else { None }).collect()
+}
+
 #[derive(Clone, Copy, Debug, PartialEq, Eq, Serialize, Deserialize)]
 pub enum IdPlan {
     Dense,
@@ -330,6 +335,9 @@ pub fn trees(max: usize, base: u8) -> Vec<(Shape, Vec<Option<u8>>)> {
         for s in shapes(n, &[0, 1, 2]) {
             for mask in 0..(1usize << n) {
                 out.push((s.clone(), placement(n, mask, base)));
+                if mask != 0 && n <= 3 {
+                    out.push((s.clone(), placement_empty(n, mask)));
+                }
             }
         }
     }
@@ -400,7 +408,7 @@ pub fn run_c11(tier: &str) -> Outcome {
             machinery.push(format!("vacuous run: situation '{k}' never occurred"));
         }
     }
-    let rule = format!("every pair of labelled trees (left <= {gmax} vertices, right <= {hmax}; labels α0/x/foo, sibling labels distinct), every placement of data (distinct bytes per vertex, inline and heap), 5 id assignments of the left tree (dense, reversed, gaps, new ids landing on recycled slots, left tree built on recycled slots) x put before/after bind, 3 id assignments of the right tree, the right tree with unread data and with data that was already read before the merge, every `left`, Sodg<3> and Sodg<16>; kept if the reference model says the result stays within the limits. Oracle: Ok; right graph unchanged; the graft applied to the model as add/bind/put (new ids read back from the implementation, each absent before and never returned by next_id) equals the left graph afterwards (vertices, edges); injective mapping; then every order of reads of the data-holding vertices (<= 4 holders: all permutations) compared with the model read by read (bytes and alive set). distinct_nontrivial = merge cases inside the limits");
+    let rule = format!("every pair of labelled trees (left <= {gmax} vertices, right <= {hmax}; labels α0/x/foo, sibling labels distinct), every placement of data (distinct bytes per vertex, inline and heap; and the empty datum), 5 id assignments of the left tree (dense, reversed, gaps, new ids landing on recycled slots, left tree built on recycled slots) x put before/after bind, 3 id assignments of the right tree, the right tree with unread data and with data that was already read before the merge, every `left`, Sodg<3> and Sodg<16>; kept if the reference model says the result stays within the limits. Oracle: Ok; right graph unchanged; the graft applied to the model as add/bind/put (new ids read back from the implementation, each absent before and never returned by next_id) equals the left graph afterwards (vertices, edges); injective mapping; then every order of reads of the data-holding vertices (<= 4 holders: all permutations) compared with the model read by read (bytes and alive set). distinct_nontrivial = merge cases inside the limits");
     super::outcome("C11", tier, "exploration", &rule, acc, true, json!({"left_trees": ng, "right_trees": nh, "variants": nv}), t0.elapsed().as_secs_f64(), vec!["checked up to the choice of new ids, which the statement leaves open".to_string(), "the merge inside longer histories (C01-C03 afterwards) is additionally explored by the Merge transition of HX in the C01-C05 runs".to_string()], machinery)
 }
 
